@@ -469,6 +469,13 @@ func (vc *FnVC) addEdge(fr *frame, from, to *ssa.BasicBlock, cond string, st *st
 		li := fr.loops[to]
 		bst := st.clone()
 		bst.reach = cond
+		for _, h := range fr.hits {
+			tg := h.tags
+			if len(tg) == 0 {
+				tg = vc.safetyTags(fr)
+			}
+			vc.oblige("reject-on-hit", h.name+":next-iteration", cond, fmt.Sprintf("(not %s)", h.term), tg, "")
+		}
 		iv := map[string]val{"iter": {t: fmt.Sprintf("(+ %s 1)", li.iter), typ: tMathInt}}
 		for _, c := range li.invs {
 			parts := splitConj(c.E, vc.eng.db, 0)
@@ -618,6 +625,21 @@ func (vc *FnVC) step(fr *frame, st *state, b *ssa.BasicBlock, ins ssa.Instructio
 		vc.sliceOp(fr, st, x)
 	case *ssa.Lookup:
 		vc.lookup(fr, st, x)
+		if fr.spec != nil && fr.spec.RejectOnHit != nil && x.CommaOk && fr.depth == 0 {
+			name := ""
+			if u, ok := x.X.(*ssa.UnOp); ok {
+				switch a := u.X.(type) {
+				case *ssa.Alloc:
+					name = a.Comment
+				case *ssa.FreeVar:
+					name = a.Name()
+				}
+			}
+			if tags, ok := fr.spec.RejectOnHit[name]; ok && name != "" {
+				hit := vc.define("hit", "Bool", fmt.Sprintf("(and %s %s)", st.reach, fr.vals[x].tup[1].t))
+				fr.hits = append(fr.hits, lookupHit{name: name, term: hit, tags: tags})
+			}
+		}
 	case *ssa.MapUpdate:
 		m := fr.get(vc, x.Map)
 		k := fr.get(vc, x.Key)
@@ -739,6 +761,22 @@ func (vc *FnVC) step(fr *frame, st *state, b *ssa.BasicBlock, ins ssa.Instructio
 			v := fr.get(vc, r)
 			v.t = vc.term(fr, st, v)
 			res = append(res, v)
+		}
+		for _, h := range fr.hits {
+			// a declared reject-on-hit map: a lookup that found its key must end in an error return
+			if len(res) == 0 {
+				break
+			}
+			last := res[len(res)-1]
+			nonnil := fmt.Sprintf("(not (= %s 0))", last.t)
+			if _, isI := last.typ.Underlying().(*types.Interface); isI {
+				nonnil = fmt.Sprintf("(not (= (i.tid %s) 0))", last.t)
+			}
+			tg := h.tags
+			if len(tg) == 0 {
+				tg = vc.safetyTags(fr)
+			}
+			vc.oblige("reject-on-hit", h.name+":return", st.reach, fmt.Sprintf("(=> %s %s)", h.term, nonnil), tg, vc.posOf(x))
 		}
 		fr.rets = append(fr.rets, retEdge{cond: st.reach, st: st.clone(), res: res})
 	case *ssa.Panic:
